@@ -511,3 +511,64 @@ Proof.
         by (rewrite E1; reflexivity).
       apply Hr in Hin. destruct Hin as [(A & B & C)|Hin]; [auto|]. contradiction.
 Qed.
+
+(* the miner output of the fee transaction goes to the golden-ticket solver *)
+Theorem payout_miner_slip : forall miner prev k a,
+  In (k, a, SLIP_MINER) (po_slips (payout_with_gt miner prev)) -> k = miner.
+Proof.
+  intros miner [pv|] k a; [|cbn; contradiction].
+  unfold payout_with_gt.
+  destruct pv as [fees avg hasgt r1 pp]. cbn [pv_fees pv_avg pv_has_gt pv_router pv_pp].
+  set (cap := payout_cap avg). clearbody cap.
+  destruct (capped (fees / 2) cap) as [mp g1]. destruct (capped (fees - fees / 2) cap) as [r1p g2].
+  assert (Hm : forall l, In (k, a, SLIP_MINER) ((if negb (miner =? 0) && (0 <? mp) then [(miner, mp, SLIP_MINER)] else []) ++ l) ->
+               k = miner \/ In (k, a, SLIP_MINER) l).
+  { intros l Hin. destruct (negb (miner =? 0) && (0 <? mp)); cbn [app] in Hin; [|right; exact Hin].
+    destruct Hin as [E|Hin]; [|right; exact Hin]. injection E as <- _. left. reflexivity. }
+  assert (Hr : forall r rp g l, In (k, a, SLIP_MINER)
+              (fst (if 0 <? rp then if negb (r =? 0) then ([(r, rp, SLIP_ROUTER)], 0) else ([], rp) else ([], g)) ++ l) ->
+              In (k, a, SLIP_MINER) l).
+  { intros r rp g l Hin. destruct (0 <? rp); [|exact Hin].
+    destruct (negb (r =? 0)); cbn [fst app] in Hin; [|exact Hin].
+    destruct Hin as [E|Hin]; [discriminate E|exact Hin]. }
+  destruct hasgt; [|destruct pp as [[ppfees r2]|]].
+  - destruct (if 0 <? r1p then if negb (r1 =? 0) then ([(r1, r1p, SLIP_ROUTER)], 0) else ([], r1p) else ([], 0)) as [s1 g5] eqn:E1.
+    cbv beta iota zeta.
+    destruct (if 0 <? 0 then if negb (0 =? 0) then ([(0, 0, SLIP_ROUTER)], 0) else ([], 0) else ([], 0)) as [s2 g6] eqn:E2.
+    cbn [po_slips]. intros Hin. apply Hm in Hin. destruct Hin as [A|Hin]; [exact A|].
+    replace s1 with (fst (if 0 <? r1p then if negb (r1 =? 0) then ([(r1, r1p, SLIP_ROUTER)], 0) else ([], r1p) else ([], 0))) in Hin
+      by (rewrite E1; reflexivity).
+    apply Hr in Hin.
+    replace s2 with (fst (if 0 <? 0 then if negb (0 =? 0) then ([(0, 0, SLIP_ROUTER)], 0) else ([], 0) else ([], 0)) ++ []) in Hin
+      by (rewrite E2, app_nil_r; reflexivity).
+    apply Hr in Hin. contradiction.
+  - destruct (capped (ppfees / 2) cap) as [tr g3]. destruct (capped (ppfees - ppfees / 2) cap) as [r2p g4].
+    destruct (if 0 <? r1p then if negb (r1 =? 0) then ([(r1, r1p, SLIP_ROUTER)], 0) else ([], r1p) else ([], 0)) as [s1 g5] eqn:E1.
+    destruct (if 0 <? r2p then if negb (r2 =? 0) then ([(r2, r2p, SLIP_ROUTER)], 0) else ([], r2p) else ([], 0)) as [s2 g6] eqn:E2.
+    cbn [po_slips]. intros Hin. apply Hm in Hin. destruct Hin as [A|Hin]; [exact A|].
+    replace s1 with (fst (if 0 <? r1p then if negb (r1 =? 0) then ([(r1, r1p, SLIP_ROUTER)], 0) else ([], r1p) else ([], 0))) in Hin
+      by (rewrite E1; reflexivity).
+    apply Hr in Hin.
+    replace s2 with (fst (if 0 <? r2p then if negb (r2 =? 0) then ([(r2, r2p, SLIP_ROUTER)], 0) else ([], r2p) else ([], 0)) ++ []) in Hin
+      by (rewrite E2, app_nil_r; reflexivity).
+    apply Hr in Hin. contradiction.
+  - destruct (if 0 <? r1p then if negb (r1 =? 0) then ([(r1, r1p, SLIP_ROUTER)], 0) else ([], r1p) else ([], 0)) as [s1 g5] eqn:E1.
+    cbv beta iota zeta.
+    destruct (if 0 <? 0 then if negb (0 =? 0) then ([(0, 0, SLIP_ROUTER)], 0) else ([], 0) else ([], 0)) as [s2 g6] eqn:E2.
+    cbn [po_slips]. intros Hin. apply Hm in Hin. destruct Hin as [A|Hin]; [exact A|].
+    replace s1 with (fst (if 0 <? r1p then if negb (r1 =? 0) then ([(r1, r1p, SLIP_ROUTER)], 0) else ([], r1p) else ([], 0))) in Hin
+      by (rewrite E1; reflexivity).
+    apply Hr in Hin.
+    replace s2 with (fst (if 0 <? 0 then if negb (0 =? 0) then ([(0, 0, SLIP_ROUTER)], 0) else ([], 0) else ([], 0)) ++ []) in Hin
+      by (rewrite E2, app_nil_r; reflexivity).
+    apply Hr in Hin. contradiction.
+Qed.
+
+(* the golden-ticket check passes only for a solution with enough leading zeros
+   (difficulties below 2^32: `difficulty as u32` is the identity) *)
+Theorem golden_ticket_solves_sound : forall lz d,
+  d < 4294967296 -> golden_ticket_solves lz d = true -> d <= lz.
+Proof.
+  intros lz d Hd H. unfold golden_ticket_solves in H.
+  rewrite N.mod_small in H by exact Hd. apply N.leb_le. exact H.
+Qed.
